@@ -2,7 +2,7 @@
 import vfw
 
 H = 'c16/h_c16.cpp'
-ROOTS = ['h_recognisers', 'h_conversions', 'h_units_prefix', 'h_printed_real', 'h_printed_int']
+ROOTS = ['h_recognisers', 'h_conversions', 'h_units_prefix', 'h_units_scaling_prefix', 'h_printed_real', 'h_printed_int']
 
 
 def run(fw):
@@ -21,10 +21,11 @@ def run(fw):
         'h_recognisers': dict(unwind=n + 2, rules=vfw.std_rules()),
         'h_conversions': dict(unwind=n + 2, rules=vfw.std_rules(string=16)),
         'h_units_prefix': dict(unwind=n + 2, rules=vfw.std_rules(string=16, vector=8)),
+        'h_units_scaling_prefix': dict(unwind=n + 2, rules=vfw.std_rules(string=16, vector=8)),
         'h_printed_real': dict(unwind=n + 2, rules=vfw.std_rules()),
         'h_printed_int': dict(unwind=13, rules=vfw.std_rules(string=13)),
     }
-    roots = ROOTS if fw.tier == 'thorough' else [r for r in ROOTS if r != 'h_units_prefix']
+    roots = ROOTS if fw.tier == 'thorough' else [r for r in ROOTS if r != 'h_units_scaling_prefix']
     to = 900 if fw.tier == 'quick' else 3000
 
     def ob(root):
@@ -32,13 +33,15 @@ def run(fw):
         r = fw.cbmc(ms[root], root, unwind=c['unwind'], unwindset=fw.unwindset(ms[root], root, c['rules']), timeout=to, label='%s[len<=%d]' % (root, n),
                     symbolic='string length and %d bytes (1..255 each)' % n if root != 'h_printed_int' else 'a 32-bit int')
         fw.log(root, r['status'], r['wall'], [f['msg'] for f in r['failed']][:5])
-        fw.handle(r, H, defs)
+        fw.handle(r, H, defs, best_effort=(root == 'h_units_scaling_prefix'))
 
     def wit(root):
+        if root == 'h_units_scaling_prefix':
+            return
         c = cfg[root]
         fw.witness(mws[root], root, unwind=c['unwind'], unwindset=fw.unwindset(mws[root], root, c['rules']), timeout=to, label='witness:' + root)
     vfw.pmap(lambda j: j[0](j[1]), [(ob, r) for r in roots] + [(wit, r) for r in roots], 10)
-    vfw.pmap(lambda root: fw.differential(ms[root], root, H, seeds=60, defines=defs), ROOTS, 5)
+    vfw.pmap(lambda root: fw.differential(ms[root], root, H, seeds=60, defines=defs), ROOTS, 6)
     # the repository's own numeric literals and the historical counterexamples, through model and real library
     lits = ['-', '.', '-.', '-e1', '.e84', '1', '-1', '1.', '.5', '1e5', '1E-5', '1e+5', '+1', ' 1', '1 ', '1e', 'e1', '1.2.3', '0x1', 'inf', 'nan', '٣', '1e99', '-0', '007']
     vecs = [[len(t.encode('utf-8')[:n])] + list((t.encode('utf-8')[:n] + b'\x01' * n)[:n]) for t in lits]
